@@ -13,7 +13,7 @@ import (
 func init() { runners["C14"] = runC14 }
 
 type gridIRI struct {
-	s                            string
+	s                           string
 	scheme, host, path, q, frag int // indices of the semantic class in each dimension
 }
 
